@@ -24,6 +24,8 @@ MENU_T = ('none', 'L@d1', 'LC@d1', 'LC@d2', 'L@d1,C@d2', 'LC@d1&d2')
 def elements(ids, variant):
     w = ids['workers'][0]
     el = [w['node'], w['comp'], w['ports'][0], w['swports'][0]]
+    if variant == 2:       # delegations written on the stitching elements themselves (uplink port, switch service)
+        return [w['node'], w['swports'][0], ids['uplink'], ids['switch'][1]]
     if variant >= 1:
         el += [ids['facility']['port'], ids['sw2']['port']]
     return el
@@ -40,7 +42,7 @@ def eval_vector(case):
     variant, choice = case[0], tuple(case[1])
     v = []
     world.reset_all()
-    t, ids = build_site('A', workers=1 if variant == 0 else 2, facility=variant >= 1, second_switch=variant >= 1)
+    t, ids = build_site('A', workers=2 if variant == 1 else 1, facility=variant == 1, second_switch=variant == 1)
     arm = t.as_arm()
     els = elements(ids, variant)
     ctx = f'[variant {variant} assignment {dict(zip([e.split("-", 1)[1] for e in els], choice))}]'
@@ -215,12 +217,14 @@ def run(report):
     if report.tier == 'quick':
         cases = [(0, c) for c in itertools.product(MENU_Q, repeat=4)]
         cases += [(1, c) for c in itertools.product(('none', 'LC@d1', 'LC@d2'), repeat=6)]
+        cases += [(2, c) for c in itertools.product(MENU_T, repeat=4)]
     else:
         cases = [(0, c) for c in itertools.product(tuple(menu('x')), repeat=4)]
+        cases += [(2, c) for c in itertools.product(tuple(menu('x')), repeat=4)]
         cases += [(1, c) for c in itertools.product(MENU_T, repeat=6)]
     g = explore_cases(report, 'vectors', eval_vector, cases, chunk=16,
                       rule='substrate model (worker with NIC, stitch switch + service + ports, patch links; variant 1 adds a second '
-                           'worker, a facility and an inter-switch link) x EVERY vector of per-element delegation choices over the '
+                           'worker, a facility and an inter-switch link; variant 2 puts delegations on the stitching port and service) x EVERY vector of per-element delegation choices over the '
                            'delegable elements (none, label-only, capacity-only, both, other id, mixed ids, two ids on one node, pool '
                            'definition, pool reference); each returned model judged on 7 clauses from raw snapshots')
     explore_cases(report, 'reload', eval_reload,
